@@ -67,3 +67,34 @@ func VerifC06QRMatrixDimsOne(w, h int) {
 	zv.Assert((res != nil) != (err != nil), "Decode must return exactly one of result and error")
 	zv.Reach("qrdimsone")
 }
+
+// VerifC06QRVersionBlocks: a dim x dim matrix (dim = 17 + 4v, v >= 7) in which one 18-bit version
+// information block is free (which = 0: top right, 1: bottom left) and everything else is white (so
+// the other block is unreadable): ReadVersion gives a version whose dimension is the matrix's, or an
+// error — a version that does not match the matrix would make ReadCodewords index outside it.
+func VerifC06QRVersionBlocks(v, which int) {
+	dim := 17 + 4*v
+	b, _ := gozxing.NewSquareBitMatrix(dim)
+	w := zv.Uint32() & 0x3ffff
+	k := 0
+	for j := 0; j <= 5; j++ {
+		for i := dim - 11; i <= dim-9; i++ {
+			if w>>uint(k)&1 == 1 {
+				if which == 0 {
+					b.Set(i, j) // top right block: 3 wide, 6 tall
+				} else {
+					b.Set(j, i) // bottom left block: its transpose
+				}
+			}
+			k++
+		}
+	}
+	p, e0 := NewBitMatrixParser(b)
+	zv.Assert(e0 == nil, "parser")
+	ver, err := p.ReadVersion()
+	zv.Assert((ver != nil) != (err != nil), "version xor error")
+	if err == nil {
+		zv.Assert(ver.GetDimensionForVersion() == dim, "a version that does not match the matrix size must be refused")
+	}
+	zv.Reach("qrversionblocks")
+}
